@@ -1034,7 +1034,31 @@ class Interp:
             op = lib.cJSON_CreateObject()
             lib.cJSON_AddItemToObject(op, b"op", lib.cJSON_CreateString(b"test"))
             lib.cJSON_AddItemToObject(op, b"path", lib.cJSON_CreateString(b""))
-            lib.cJSON_AddItemToObject(op, b"value", lib.cJSON_Duplicate(r1.ptr, 1))
+            value = lib.cJSON_Duplicate(r1.ptr, 1)
+            how = (d >> 1) % 5
+            if how:
+                # the value tested against is not always an exact copy: an object (the root or the first nested one with two or more
+                # members) loses its last members in sorted order / gains a member that sorts last / gets one value changed, so the
+                # lock-step walk over the two sorted member lists ends in every possible way
+                target = value
+                if (d >> 4) & 1:
+                    for kid in lib.children(value):
+                        if (lib.shim_type(kid) & 0xFF) == 64 and len(lib.children(kid)) >= 2:
+                            target = kid
+                            break
+                if (lib.shim_type(target) & 0xFF) == 64:
+                    kids = [(ctypes.string_at(lib.shim_key(k)) if lib.shim_key(k) else b"", k) for k in lib.children(target)]
+                    fold = (lambda x: x) if cs else model.fold
+                    kids.sort(key=lambda t: fold(t[0]))
+                    if how in (1, 2) and len(kids) >= 2:
+                        for _, k in kids[-(1 if how == 1 else max(1, len(kids) // 2)):]:
+                            lib.cJSON_Delete(lib.cJSON_DetachItemViaPointer(target, k))
+                    elif how == 3:
+                        lib.cJSON_AddItemToObject(target, b"~~~ sorts last", lib.cJSON_CreateNumber(1.0))
+                    elif kids:
+                        lib.cJSON_ReplaceItemViaPointer(target, kids[len(kids) // 2][1], lib.cJSON_CreateString(b"a changed value"))
+                    self.feat.add("patch_test_against_near_copy")
+            lib.cJSON_AddItemToObject(op, b"value", value)
             lib.cJSON_AddItemToArray(patch, op)
             (lib.cJSONUtils_ApplyPatchesCaseSensitive if cs else lib.cJSONUtils_ApplyPatches)(r1.ptr, patch)
             lib.cJSON_Delete(patch)
